@@ -15,8 +15,9 @@ func init() {
 		Title: "Batch results are positional and self-consistent",
 		Explanation: "(R1) every store into a []hrpc.RPCResult (found by type in all non-test code) is indexed by the original position of the call it describes: either a lookup in the call->index map that SendBatch fills with m[rpc]=i while ranging over the original batch, keyed by the call whose result is written, or the index of a range over a call slice that is aligned with the result slice (result slice = make(len(that slice)), or both are parameters and the alignment is an obligation at every call site); " +
 			"(R2) the validation loop stores an error into every slot before anything is queued, and the call->index map is filled in that same loop with the range element and index; " +
-			"(R3) a result received from a call's channel is stored only into that same call's slot.",
-		Residue:   "allOK <=> every error is nil (value-level bookkeeping across retry rounds)",
+			"(R3) a result received from a call's channel is stored only into that same call's slot; " +
+			"(R4) success-flag bookkeeping across rounds: inside the retry loop allOK is only set to false or to the negation of a sticky flag that is declared outside the loop, never reset inside it and only ever OR-ed with the per-group 'unretryable error seen' result; a failed group sets allOK to false.",
+		Residue:   "allOK <=> every error is nil as a value-level statement over all outcome sequences (R4 pins the sticky-flag mechanism, not the equivalence)",
 		Technique: "index-provenance analysis over SSA (who writes which slot, with which index), alignment obligations propagated to call sites",
 		Run:       runC07,
 	})
@@ -207,6 +208,10 @@ func runC07(c *kit.Ctx) {
 		}
 	}
 
+	// ---- R4 ---------------------------------------------------------------
+	c.StartRule("R4", "success flag bookkeeping across retry rounds", 4)
+	successFlag(c, sb, batchParam)
+
 	// ---- R1 ---------------------------------------------------------------
 	c.StartRule("R1", "every store into a result slot is indexed by the original position of the call it describes", 6)
 	type site struct {
@@ -318,6 +323,127 @@ func runC07(c *kit.Ctx) {
 		}
 		c.Unk(s.fn, "slot-store", s.store.Pos(), "store into a result slot with an index of unrecognised provenance ("+kit.Path(idx)+")")
 	}
+}
+
+// successFlag checks rule R4 on SendBatch.
+func successFlag(c *kit.Ctx, sb *ssa.Function, batchParam *ssa.Parameter) {
+	allOK := resultAlloc(sb, 1)
+	var hdr *ssa.BasicBlock
+	kit.Instrs(sb, func(in ssa.Instruction) {
+		if ph, ok := in.(*ssa.Phi); ok && hdr == nil {
+			for _, e := range ph.Edges {
+				if e == ssa.Value(batchParam) && ph.Type() == batchParam.Type() {
+					hdr = ph.Block()
+				}
+			}
+		}
+	})
+	if allOK == nil || hdr == nil {
+		c.Unk(sb, "flag-shape", sb.Pos(), "SendBatch no longer has the named success flag and a retry loop carrying the batch")
+		return
+	}
+	inLoop := func(b *ssa.BasicBlock) bool {
+		if !hdr.Dominates(b) {
+			return false
+		}
+		if b == hdr {
+			return true
+		}
+		return kit.PathFromBlock(b, kit.PathQuery{Target: func(x ssa.Instruction) bool { return x.Block() == hdr }}) != nil
+	}
+	// stores to allOK (in SendBatch and its literals) that lie inside the loop
+	var sticky *ssa.Alloc
+	n := 0
+	var visit func(f *ssa.Function, addr ssa.Value, loopCtx bool)
+	visit = func(f *ssa.Function, addr ssa.Value, loopCtx bool) {
+		kit.Instrs(f, func(in ssa.Instruction) {
+			switch s := in.(type) {
+			case *ssa.Store:
+				if s.Addr != addr {
+					return
+				}
+				if f == sb && !inLoop(s.Block()) {
+					return
+				}
+				if f != sb && !loopCtx {
+					return
+				}
+				n++
+				if k, ok := s.Val.(*ssa.Const); ok && k.Value != nil {
+					c.Check(k.Value.ExactString() == "false", f, "flag-store", s.Pos(), "allOK = false", "allOK is set to true unconditionally inside the retry loop: an earlier fatal error is forgotten")
+					return
+				}
+				// allOK = !sticky
+				if u, ok := s.Val.(*ssa.UnOp); ok && u.Op == token.NOT {
+					if l, ok := u.X.(*ssa.UnOp); ok && l.Op == token.MUL {
+						if a, ok := l.X.(*ssa.Alloc); ok {
+							sticky = a
+							c.OK(f, "flag-store", s.Pos(), "allOK = !"+a.Comment+" (checked below: sticky across rounds)")
+							return
+						}
+					}
+				}
+				c.Unk(f, "flag-store", s.Pos(), "allOK assigned from an unrecognised expression inside the retry loop")
+			case *ssa.MakeClosure:
+				for i, b := range s.Bindings {
+					if b == addr {
+						cf := s.Fn.(*ssa.Function)
+						visit(cf, cf.FreeVars[i], loopCtx || (f == sb && inLoop(s.Block())))
+					}
+				}
+			}
+		})
+	}
+	visit(sb, allOK, false)
+	if n == 0 {
+		c.Unk(sb, "flag-store", sb.Pos(), "allOK is never updated inside the retry loop")
+	}
+	if sticky == nil {
+		c.Bad(sb, "sticky-flag", sb.Pos(), "allOK is not derived from a flag that remembers fatal errors of earlier rounds", "")
+		return
+	}
+	c.Check(sticky.Parent() == sb && !inLoop(sticky.Block()), sb, "sticky-declared-outside-loop", sticky.Pos(), "the remembered-fatal-error flag lives outside the retry loop",
+		"the flag that remembers a non-retryable error is (re)declared inside the retry loop: a fatal error of an earlier round is forgotten and SendBatch reports success although a result carries an error")
+	// every store to sticky preserves true
+	okStores, ns := true, 0
+	var visit2 func(f *ssa.Function, addr ssa.Value)
+	visit2 = func(f *ssa.Function, addr ssa.Value) {
+		kit.Instrs(f, func(in ssa.Instruction) {
+			switch s := in.(type) {
+			case *ssa.Store:
+				if s.Addr != addr {
+					return
+				}
+				ns++
+				ph, ok := s.Val.(*ssa.Phi)
+				pres := false
+				if ok {
+					for k, e := range ph.Edges {
+						if kc, ok := e.(*ssa.Const); ok && kc.Value != nil && kc.Value.ExactString() == "true" {
+							pred := ph.Block().Preds[k]
+							if iff, ok := pred.Instrs[len(pred.Instrs)-1].(*ssa.If); ok {
+								if l, ok := iff.Cond.(*ssa.UnOp); ok && l.X == addr && pred.Succs[0] == ph.Block() {
+									pres = true
+								}
+							}
+						}
+					}
+				}
+				if !pres {
+					okStores = false
+				}
+			case *ssa.MakeClosure:
+				for i, b := range s.Bindings {
+					if b == addr {
+						cf := s.Fn.(*ssa.Function)
+						visit2(cf, cf.FreeVars[i])
+					}
+				}
+			}
+		})
+	}
+	visit2(sb, sticky)
+	c.Check(okStores && ns > 0, sb, "sticky-only-ored", sticky.Pos(), "the flag is only ever assigned flag || x", "the remembered-fatal-error flag can be cleared: it is assigned something other than itself OR-ed with the latest result")
 }
 
 func calleeFullName(fn *ssa.Function) string {
